@@ -82,10 +82,15 @@ func main() {
 		decoderWorkerMain()
 		return
 	}
+	if hasFlag("c10printreps") {
+		printReps()
+		return
+	}
 	if p, ok := argValue("replay"); ok && replayDecoder(p) {
 		return
 	}
 	tier := tierArg()
+	t0 := time.Now()
 	var dec *decoderRun
 	only, _ := argValue("only")
 	coordinator := !hasFlag("worker") && !hasFlag("list") && !hasFlag("replay")
@@ -120,6 +125,7 @@ func main() {
 			"a hang is 'no result for one input within 10 s, twice, in a process of its own'",
 		},
 		Extra: func(tier string, r *vx.Report) {
+			r.T0 = t0 // the decoder half ran before the report existed
 			if dec == nil {
 				r.CapsHit = append(r.CapsHit, "decoder half not run (-only)")
 				return
@@ -160,6 +166,7 @@ func mergeDecoder(r *vx.Report, d *decoderRun) {
 		"decode_calls":                   st.Decodes,
 		"evaluations":                    st.Evaluations,
 		"outcome_classes":                len(st.Classes),
+		"outcome_classes_per_family_detail": len(st.Fine),
 		"worker_processes":               d.procs,
 		"batches":                        d.batches,
 		"wall_s":                         d.wall.Seconds(),
